@@ -121,7 +121,7 @@ fn read_case(t: &mut Tape, ctx: &Ctx, o: &mut Outcome) {
     ARENAS.with(|ar| {
         let mut io = InfOpts::new(if auto { 47 } else { 31 });
         if reuse {
-            io.prehistory = Some(Prehistory { bytes: &pre_bytes, calls: pre.0, in_chunk: pre.1, out_chunk: pre.2 });
+            io.prehistory = Some(Prehistory { bytes: &pre_bytes, calls: pre.0, in_chunk: pre.1, out_chunk: pre.2, failed_sync: false });
         }
         io.capture = Some(Capture { extra_max: em, name_max: nm, comm_max: cm, arenas: &ar.aux });
         let r = run_inflate::<Rs>(&bytes, &sched, &io, ar);
